@@ -66,7 +66,9 @@ def gen_description(rng, label):
         d['pre_model_decode'] = h('pre_model', label)
     if rng.random() < 0.5:
         d['post_model_decode'] = h('post_model', label)
-    ids = rng.sample(['move', 'eat', 'grow', 'collector', 'S 1', 'z', ''], rng.choice([0, 1, 2, 2, 3, 4]))
+    # (identifiers are plain text: template / pattern / format metacharacters in them mean nothing)
+    ids = rng.sample(['move', 'eat', 'grow', 'collector', 'S 1', 'z', '', 'cost$$', '$system_index', 's_${system_index}', '{0}', '%s', 'a*'],
+                     rng.choice([0, 1, 2, 2, 3, 4]))
     for sid in ids:
         p = {'id': sid}
         if rng.random() < 0.7:
@@ -90,7 +92,7 @@ def gen_description(rng, label):
         if rng.random() < 0.5:
             s['post_system_init'] = h('post_sys', sid)
         d['systems'].append(s)
-    for g in rng.sample(['sheep', 'wolf', 'grass'], rng.choice([0, 1, 1, 2, 3])):
+    for g in rng.sample(['sheep', 'wolf', 'grass', 'sheep$$', '$agent_index', 'g_${agent_index}', '{i}', 'wolf%d'], rng.choice([0, 1, 1, 2, 3])):
         a = {'name': 'RAgent', 'module': mod(), 'number': rng.choice([0, 1, 2, 3, 5]), 'params': {'group': g}}
         if rng.random() < 0.5:
             a['pre_agent_init'] = h('pre_agents', g)
